@@ -8,6 +8,8 @@
 2. Every case is rendered (mechanically, lib/swaygen.Renderer) four ways and built/run by vh-exec:
      a  `const C: T = e;` + `log(C)`                        (front-end const_eval.rs; debug)
      g  `configurable { C: T = e }` + `log(C)`              (a slice; debug)
+     h  `const C: T = fl(R, L)` with `fn fl(a, b) { cf(b, a) }`, `fn cf(a, b) { a op b }`  (a slice of the binary
+        cases: compile-time function application, parameter names of caller and callee collide; debug)
      b  `log(e)` in a function body, release                (IR const-folding)
      p  `let x = id(a); if x == a { log(x op b) }`, release (ccp + const-folding; a slice)
      c  `log(id(a) op id(b))`, operands laundered through #[inline(never)] identities, debug (VM)
@@ -137,6 +139,28 @@ def src_const(cases):
     return "\n".join(lines) + "\n"
 
 
+def is_lit_bin(c):
+    e = c["e"]
+    return e["k"] == "bin" and e["l"]["k"] == "lit" and e["r"]["k"] == "lit"
+
+
+def src_constfn(cases):
+    """The operation behind two const fns whose parameter names collide: `fl(a, b) = cf(b, a)`, `cf(a, b) = a op b`,
+    `const C = fl(R, L)` (argument binding of compile-time function application)."""
+    lines = [header()]
+    for c in cases:
+        e = c["e"]
+        tl, tr = e["l"]["t"], e["r"]["t"]
+        body = dict(e)
+        body["l"], body["r"] = {"k": "var", "x": "a"}, {"k": "var", "x": "b"}
+        lines.append("fn cf_%05d(a: %s, b: %s) -> %s { %s }" % (c["n"], tl, tr, c["ty"], R.expr(body)))
+        lines.append("fn fl_%05d(a: %s, b: %s) -> %s { cf_%05d(b, a) }" % (c["n"], tr, tl, c["ty"], c["n"]))
+        lines.append("const C_%05d: %s = fl_%05d(%s, %s);" % (c["n"], c["ty"], c["n"], r_lit(e["r"]), r_lit(e["l"])))
+    for c in cases:
+        lines.append("#[test] fn t%d() { log(C_%05d); }" % (c["n"], c["n"]))
+    return "\n".join(lines) + "\n"
+
+
 def src_configurable(cases):
     lines = [header(), "configurable {"]
     for c in cases:
@@ -173,6 +197,7 @@ def src_runtime(cases):
 RENDER = {
     "a": (src_const, "debug"),
     "g": (src_configurable, "debug"),
+    "h": (src_constfn, "debug"),
     "b": (src_fold, "release"),
     "p": (src_ccp, "release"),
     "c": (src_runtime, "debug"),
@@ -198,7 +223,7 @@ class Groups:
         self.seq += 1
         pid = "c06%s%04d" % (self.r, self.seq)
         env = {"SWAY_VERIF_CONST_TRACE": ""}
-        if self.r == "a":
+        if self.r in ("a", "h"):
             env["SWAY_VERIF_CONST_TRACE"] = os.path.join(self.ctx.work, "hook-%s.ndjson" % pid)
         return {"id": pid, "files": {"src/main.sw": self.src(cases)}, "profile": self.profile, "env": env,
                 "want": ["diag"]}, cases
@@ -266,7 +291,7 @@ class Groups:
             m = re.search(r"(?m)^error\b", chunk)
             if m:
                 errs.append(chunk[m.start():].strip())
-        if self.r == "a":
+        if self.r in ("a", "h"):
             hook = self.hook_lines(rec)
             if hook and sorted(h[0] for h in hook) != sorted(by_n):
                 raise ToolError("C06: hook H8 did not report exactly the const declarations of %s" % rec["id"])
@@ -391,7 +416,7 @@ def fold_records(ctx, sel):
     return recs
 
 
-RNAME = {"a": "const declaration", "g": "configurable", "b": "function body (release, const-folding)",
+RNAME = {"a": "const declaration", "g": "configurable", "h": "const declaration calling const fns (fl(a,b) = cf(b,a))", "b": "function body (release, const-folding)",
          "p": "function body (release, ccp + const-folding)", "c": "run time (operands laundered)",
          "f": "IR instruction given to the const-folding pass"}
 
@@ -462,6 +487,10 @@ def run(ctx):
     cfg_ok = [c for c in sel if not refused(c)][::7]
     cfg_bad = [c for c in sel if refused(c)][::(151 if not ctx.quick else 61)]
     gg.add(chunks(cfg_ok, BATCH_CFG) + [[c] for c in cfg_bad])
+    # --- h: const fn application with colliding parameter names (a slice of the two-literal binary cases)
+    gh = Groups(ctx, "h")
+    hsel = [c for c in sel if is_lit_bin(c)]
+    gh.add(chunks([c for c in hsel if not refused(c)][::2], BATCH_RUN) + chunks([c for c in hsel if refused(c)][::5], BATCH_REFUSE))
     # --- b: literals in function bodies, release
     gb = Groups(ctx, "b")
     gb.add(chunks(sel, BATCH_RUN))
@@ -471,11 +500,11 @@ def run(ctx):
     # --- c: run time
     gc = Groups(ctx, "c")
     gc.add(chunks(sel, BATCH_RUN))
-    drive(ctx, [ga, gb, gc, gp, gg])
+    drive(ctx, [ga, gb, gc, gp, gg, gh])
     # --- trace records
     recs = []
     for c in sel:
-        obs = [g.obs[c["n"]] for g in (gc, ga, gg, gb, gp) if c["n"] in g.obs]
+        obs = [g.obs[c["n"]] for g in (gc, ga, gg, gh, gb, gp) if c["n"] in g.obs]
         recs.append({"id": c["id"], "cls": c["cls"], "ty": c["ty"], "e": c["e"], "obs": obs, "exp": c["expect"]["k"]})
     write_ndjson(os.path.join(ctx.work, "observations.ndjson"), recs)
     validated, rejections = validate(ctx, recs)
@@ -487,7 +516,7 @@ def run(ctx):
         report_rejection(ctx, rj)
     # --- binding self-test: corrupt one recorded value / turn one compile error into a value
     binding = self_test(ctx, recs, frecs) if not ctx.quick else None
-    per = {g.r: len(g.obs) for g in (ga, gg, gb, gp, gc)}
+    per = {g.r: len(g.obs) for g in (ga, gg, gh, gb, gp, gc)}
     per["f"] = len(frecs)
     kinds = {}
     for r in recs + frecs:
@@ -502,7 +531,7 @@ def run(ctx):
         "pool_cases": len(cases), "cases_selected": len(sel),
         "cases_per_class": {k: sum(1 for c in cases if c["cls"] == k) for k in sorted({c["cls"] for c in cases})},
         "observations_per_rendering": per, "observation_kinds": kinds,
-        "packages_built": {g.r: g.builds for g in (ga, gg, gb, gp, gc)},
+        "packages_built": {g.r: g.builds for g in (ga, gg, gh, gb, gp, gc)},
         "const_declarations_judged_individually_by_hook": ga.hook_verdicts,
         "spec_abort_cases": sum(1 for c in sel if c["expect"]["k"] != "val"),
         "spec_refusal_cases": sum(1 for c in sel if c["expect"]["k"] == "val" and c["ce"] != "val"),
